@@ -34,7 +34,7 @@ CHECKS = {
     "C02": dict(engine="S", technique=S,
                 text="Dragonbox compute_nearest_normal/shorter are executed symbolically per binade with the cache row as compiled; for every mantissa in the stated cubes the output round-trips, is shortest, is closest and has no trailing zero (exact rational oracle). "
                      "Found two genuine non-shortest defects (fixed).",
-                design_ref="DESIGN.md C02", note=TRUST + " Cube bound: low 6-12 mantissa bits free per binade; trailing-zero removal enters as a separately checked contract."),
+                design_ref="DESIGN.md C02", note=TRUST + " Cube bound: low 8 mantissa bits free per f32 binade (3 bits for f64, thorough tier); trailing-zero removal enters as a separately checked contract."),
     "C03": dict(engine="S+K", technique=S + "; " + K,
                 text="Every u8/u16/u32 value through the decimal jeaiii kernels (full width, Engine S) and every u8/i8/u16/i16 value through the public API in decimal, every u8 value in every radix 2..36 and the compact writer (Kani); cubes around powers of ten and limits for wider types.",
                 design_ref="DESIGN.md C03", note=TRUST + " Outside: 64/128-bit values outside the cubes, non-decimal radices for wide types."),
